@@ -21,11 +21,11 @@ SOURCES = [('param/parameterized.py', 'Parameter.__set__'), ('param/parameterize
            ('param/_utils.py', 'async_executor'), ('param/_utils.py', '_to_async_gen'),
            ('param/reactive.py', 'rx._resolve'), ('param/reactive.py', 'rx._resolve_async'),
            ('param/reactive.py', 'rx._lazy_resolve'), ('param/reactive.py', 'rx._invalidate_current')]
-BUDGET_S = {'quick': 50, 'thorough': 400}
+BUDGET_S = {'quick': 55, 'thorough': 420}
 EXHAUSTIVE = {'quick': True, 'thorough': True}
 THOROUGH_WORKERS = 8
 TRUSTED = [
-    'statements in lean/ParamVerif/Props/C10.lean (LatestWins / SupersededNeverApplied / PlainCancelsForGood / SyncingEmptyWhenQuiescent; '
+    'statements in lean/ParamVerif/Props/C10.lean (C10_full = LatestWins / SupersededNeverApplied / PlainCancelsForGood / SyncingEmptyWhenQuiescent of Cfg.repo; '
     'ghost field St.last = most recent assignment, proved equal to the schedule\'s lastOf; settled / allSettled / fromLatest / HazardFree '
     'are the decidable functions of Async/Spec.lean)',
     'spec-side oracle lean/ParamVerif/Async/Spec.lean (checkStep) and Async/Rx.lean (checkStep): decidable checks over the schedule '
@@ -41,11 +41,10 @@ TRUSTED = [
     'as a correspondence mismatch',
 ]
 ASSUMPTIONS = [
-    'PARTIAL on the unchanged tree: the _partial theorems hold for schedules that meet none of three explicit situations (hazA: plain '
-    'assignment while the name is in syncing; hazB: a coroutine assigned while another coroutine task is unfinished; hazD: an assignment '
-    'to a parameter whose previous asynchronous assignment has not started its task yet); C10_full is refuted (4 witness schedules, '
-    'replayed on the real code, reported as KNOWN-FINDING). The _fixed theorems (all schedules) are about the patched variant Cfg.fixed '
-    '(notes/c10-proposed-fix.diff), which /repo does not contain yet.',
+    'the headline theorems (C10_full_holds and its four parts) are about Cfg.repo, the variant of the anchored code with the fixes '
+    '08165dc and 0c5ea5c; the harness checks on every run, from the source of _async_ref, that this is the variant installed (a tree '
+    'without one of the fixes is run against the corresponding pre-fix variant of the model and its violations are reported). The '
+    'old_code_* theorems are regression theorems about the pre-fix configuration only.',
     'one Parameterized instance with 2 allow_refs Parameters, initialised before the first event; integer results, pairwise distinct',
     'hand-made futures are never shared between assignments (the k-th future of the t-th asynchronous assignment has id (t,k)); coroutine '
     'functions / async generator functions without dependencies, so _sync_refs never re-schedules them (the unregistered re-scheduled '
@@ -59,14 +58,17 @@ ASSUMPTIONS = [
     'by rx (no Trigger is created: _resolve_async stores the value and then fails on self._trigger.param), and `param.rx(async_fn)` wraps the '
     'function object without calling it, so neither is a pipeline through a coroutine; async generators through pipe are not exercised',
 ]
-RULE = ('quick: EVERY schedule of <=2 assignments (coroutine / async generator with 2 awaits / plain, on 1-2 parameters; completions also '
-        'before the assignment) and every schedule of 3 coroutine-or-plain assignments: every order of the completions relative to the '
-        'assignments and to each other x a tick or not between any two events (final tick always) = 11k schedules; plus corpus + directed '
-        'prefix (witness schedules, completion before the await, out-of-order generator futures, woken-then-cancelled), 24 rx schedules '
-        'and 3000 random schedules of <=5 assignments. thorough: 3 assignments with generators exhaustively, 60000 random schedules of <=5 '
-        'assignments, and every rx schedule of <=3 input changes (every completion order and tick placement). After every event the '
-        'observation is compared with the model and checked by the oracle. non-trivial = at least one result of an awaitable was applied; '
-        'distinct = distinct canonical case')
+RULE = ('quick: corpus (the witness schedules of the repaired defects) + directed prefix; EVERY schedule of <=2 assignments (coroutine / '
+        'async generator with 2 awaits / plain, on 1-2 parameters; completions also before the assignment), a 3-await generator against '
+        'every other kind in both orders, every schedule of 3 coroutine-or-plain assignments on 1-2 parameters and of 3 assignments with one '
+        '2-await generator: every order of the completions relative to the assignments and to each other x a tick or not between any two '
+        'events (so: plain assignments at every interleaving point, re-assignments with and without a loop iteration in between); bursts of '
+        '2-3 assignments of every mix with no tick in between x every completion order; one plain assignment inserted at every position of '
+        'four fully ticked / unticked generator schedules; 24 rx schedules; 2000 random schedules of <=5 assignments (generators with 1-3 '
+        'awaits). thorough: the same with 3 assignments in EVERY mix of coroutine / 2-await generator / plain on 1-2 parameters, bursts of 4, '
+        'completions before the assignment everywhere, 60000 random schedules, and every rx schedule of <=3 input changes. After every event '
+        'the observation is compared with the model and checked by the oracle. non-trivial = at least one result of an awaitable was '
+        'applied; distinct = distinct canonical case')
 COVERAGE_TARGETS = ['assign:coro', 'assign:agen', 'assign:plain:unlink-and-cancel', 'assign:plain:not-linked',
                     'assign:coro:cancels-registered', 'assign:agen:cancels-registered',
                     'start:register', 'start:ran-to-end', 'start:suspend-generator',
@@ -479,6 +481,58 @@ def _rx_schedules(nset):
             yield {'kind': 'rx', 'r0': 10, 'events': out}
 
 
+def _burst(srcs, params):
+    """k assignments with no loop iteration in between, tick, then the completions in every order
+    (generator futures in yield order), ticking after each completion / only once at the end"""
+    assigns, chains = [], []
+    tid = plain = 0
+    for p, s in zip(params, srcs):
+        a = _assign(p, s, tid, plain)
+        assigns.append(a)
+        if s == 'plain':
+            plain += 1
+        else:
+            chains.append([{'e': 'complete', 't': tid, 'k': k} for k in range(len(a['v']))])
+            tid += 1
+    for first_tick in (True, False):
+        for order in _orders(chains):
+            for each in (True, False):
+                out = [dict(a) for a in assigns]
+                if first_tick:
+                    out.append({'e': 'tick'})
+                for c in order:
+                    out.append(dict(c))
+                    if each:
+                        out.append({'e': 'tick'})
+                if not each or not order:
+                    out.append({'e': 'tick'})
+                yield out
+
+
+def _plain_everywhere(tier):
+    bases = [[('assign', 0, 'agen3'), ('complete', 0, 0), ('complete', 0, 1), ('complete', 0, 2)],
+             [('assign', 0, 'agen2'), ('assign', 1, 'coro'), ('complete', 0, 0), ('complete', 1, 0), ('complete', 0, 1)],
+             [('assign', 0, 'coro'), ('assign', 0, 'agen2'), ('complete', 1, 0), ('complete', 0, 0), ('complete', 1, 1)],
+             [('assign', 0, 'agen2'), ('assign', 0, 'agen2'), ('complete', 1, 0), ('complete', 0, 0), ('complete', 0, 1),
+              ('complete', 1, 1)]]
+    for base in bases:
+        for ticked in (True, False):
+            spec = []
+            for x in base:
+                spec.append(x)
+                if ticked:
+                    spec.append('tick')
+            for pos in range(len(spec) + 1):
+                for p in (0, 1):
+                    for tick_after in (True, False):
+                        sp = spec[:pos] + [('assign', p, 'plain')] + (['tick'] if tick_after else []) + spec[pos:] + ['tick']
+                        yield _from_spec(sp)['events']
+                        if tier == 'thorough':
+                            # ... and a second plain assignment right behind it on the other parameter
+                            sp2 = spec[:pos] + [('assign', p, 'plain'), ('assign', 1 - p, 'plain')] + spec[pos:] + ['tick']
+                            yield _from_spec(sp2)['events']
+
+
 def cases(rng, tier, worker, nworkers):
     if worker == 0:
         for f in sorted(glob.glob(os.path.join(os.path.dirname(__file__), '..', '..', 'corpus', 'C10', '*.json'))):
@@ -496,16 +550,60 @@ def cases(rng, tier, worker, nworkers):
     for n in (1, 2):
         for srcs in itertools.product(kinds2, repeat=n):
             for params in _param_choices(n):
-                for evs in _schedules(srcs, params, pre_complete=True):
+                pre = tier == 'thorough' or n == 1 or 'agen2' not in srcs
+                for evs in _schedules(srcs, params, pre_complete=pre):
                     if mine():
                         yield _mk(evs)
-    # 3 assignments: coroutine / plain exhaustively (quick); with generators in thorough
-    kinds3 = ['coro', 'plain'] if tier == 'quick' else ['coro', 'agen1', 'plain']
-    for srcs in itertools.product(kinds3, repeat=3):
-        for params in _param_choices(3):
-            for evs in _schedules(srcs, params):
-                if mine():
-                    yield _mk(evs)
+    # a generator with THREE awaits against every other kind (both orders, 1-2 parameters)
+    for other in ('coro', 'agen2', 'plain') + (('agen3',) if tier == 'thorough' else ()):
+        for srcs in (('agen3', other), (other, 'agen3')):
+            for params in _param_choices(2):
+                if tier == 'quick' and other == 'agen2' and params != (0, 0):
+                    continue
+                for evs in _schedules(srcs, params, pre_complete=(tier == 'thorough')):
+                    if mine():
+                        yield _mk(evs)
+    # 3 assignments. quick: coroutine / plain on 1-2 parameters, and every pattern with one two-await
+    # generator on one parameter; thorough: coroutine / two-await generator / plain in every mix, 1-2 parameters
+    if tier == 'quick':
+        for srcs in itertools.product(['coro', 'plain'], repeat=3):
+            for params in _param_choices(3):
+                for evs in _schedules(srcs, params):
+                    if mine():
+                        yield _mk(evs)
+        for pos in range(3):
+            for others in itertools.product(['coro', 'plain'], repeat=2):
+                if others == ('coro', 'coro'):
+                    continue            # (thorough has them)
+                srcs = list(others)
+                srcs.insert(pos, 'agen2')
+                for evs in _schedules(srcs, (0, 0, 0)):
+                    if mine():
+                        yield _mk(evs)
+    else:
+        for srcs in itertools.product(['coro', 'agen2', 'plain'], repeat=3):
+            for params in _param_choices(3):
+                for evs in _schedules(srcs, params):
+                    if mine():
+                        yield _mk(evs)
+    # re-assignments before the first tick: k assignments back to back (every mix, generators with
+    # several awaits included), then every completion order, with a tick after every completion or
+    # only at the end
+    for k in (2, 3) if tier == 'quick' else (2, 3, 4):
+        kinds = ['coro', 'agen2', 'plain'] if k < 4 else ['coro', 'agen2', 'plain']
+        for srcs in itertools.product(kinds, repeat=k):
+            if k == 4 and sum(1 for x in srcs if x != 'plain') > 3:
+                continue
+            for params in _param_choices(k):
+                if k >= 3 and tier == 'quick' and sum(params) > 1:
+                    continue
+                for evs in _burst(srcs, params):
+                    if mine():
+                        yield _mk(evs)
+    # a plain assignment dropped at EVERY point of a fully ticked asynchronous schedule
+    for evs in _plain_everywhere(tier):
+        if mine():
+            yield _mk(evs)
     if tier == 'thorough':
         for nset in (1, 2, 3):
             for c in _rx_schedules(nset):
@@ -515,7 +613,7 @@ def cases(rng, tier, worker, nworkers):
         for c in itertools.islice(_rx_schedules(1), 0, None):
             if mine():
                 yield c
-    n_random = 3000 if tier == 'quick' else 60000 // nworkers
+    n_random = 2000 if tier == 'quick' else 60000 // nworkers
     for _ in range(n_random):
         yield _random_param_case(rng, 5)
 
@@ -584,24 +682,8 @@ def shrink(case):
         yield dict(case, events=[dict(e, p=0) if e['e'] == 'assign' else e for e in evs])
 
 
-KEYS = {
-    'plain-assignment-while-coroutine-suspended',
-    'overlapping-coroutine-refs-corrupt-syncing',
-    'plain-assignment-before-task-start',
-    'async-reassignment-before-task-start',
-}
-
-
 def classify(case, impl, fail):
-    """A known finding only when (1) the model of the code AS WRITTEN predicts exactly what the
-    implementation did and (2) the schedule meets one of the named hazards; the key is the first
-    hazard met.  Anything else stays a violation."""
-    model = fail.get('model')
-    if case.get('kind') != 'param' or not isinstance(model, dict) or not isinstance(impl, dict):
-        return None
-    if compare(impl, model) is not None:
-        return None
-    hz = model.get('hazards') or []
-    if not hz or hz[0] not in KEYS:
-        return None
-    return hz[0]
+    """No known finding is left for C10: the four defects of the pre-fix code (hazard names in the
+    driver's `model.hazards`, witness schedules in corpus/C10) were repaired in /repo by commits
+    08165dc and 0c5ea5c, so every failure is a violation."""
+    return None
